@@ -118,6 +118,9 @@ impl Prop for C10 {
             "ignore" => {
                 let mut cfg = PpCfg::full();
                 cfg.max_items = 6;
+                // the generator tracks liveness as if includes were read; with ignore_include a chain may reach an
+                // `elsif it assumed dead, so predefined names (known finding K2) are kept out of conditions here
+                cfg.position = false;
                 let case = gen_case(ctx, t, &cfg)?;
                 if case.rendered[0].text.contains("`include `") {
                     st.skip("macro-named include under ignore_include");
